@@ -25,14 +25,18 @@ Print Assumptions c11_inventory_current.
 
 (* ---- process-global state: schedules and histories ----
    Since the repair 2f50a3c (LogSuppressLock::drop saturates instead of underflowing) no step of the machine can panic
-   on or poison CURRENT_LOG, so every statement below holds for ARBITRARY thread programs: compilations and calls of
-   the debug API (debug::log_start / log_finish) mixed, on any number of threads, under any schedule.  The hypotheses
-   `Forall compile_only progs` the statements needed while F10j was open are gone. *)
+   on or poison CURRENT_LOG -- EXCEPT an `entry` closure that panics inside debug::log_entry, which runs it under the write
+   lock (step SLogEntryPanics).  The statements below hold for ARBITRARY thread programs (compilations and calls of the
+   debug API mixed, any number of threads, any schedule) under the one standing assumption `safe_progs`: no entry
+   closure panics (the inventory rows `..:log_entry(closure)..` list what each of the ten closures does).  What happens
+   without it is c11_panicking_entry_closure_poisons_for_good; when it cannot matter, c11_no_log_no_closure_call. *)
 Definition compile_only (p : list step) : Prop := forallb compile_step p = true.
+Definition closures_safe (p : list step) : Prop := forallb closure_safe p = true.
 
 (* whatever N threads do concurrently under whatever schedule, a thread that completes has read from the globals
    exactly what it reads when it runs alone in a fresh process *)
 Theorem c11_interleaving_independent : forall (cell_init : cell -> N) (env : N) progs sched i p t,
+  safe_progs progs ->
   nth_error progs i = Some p ->
   nth_error (snd (run cell_init env g_init (map spawn progs) sched)) i = Some t -> finished t = true ->
   forall t1, nth_error (snd (run cell_init env g_init [spawn p] (repeat 0 (length p)))) 0 = Some t1 -> finished t1 = true ->
@@ -41,22 +45,23 @@ Proof. exact interleaving_independent. Qed.
 Print Assumptions c11_interleaving_independent.
 
 (* ... and the run-alone reference really completes (the statement above is not vacuous) *)
-Theorem c11_alone_finishes : forall (cell_init : cell -> N) (env : N) p,
+Theorem c11_alone_finishes : forall (cell_init : cell -> N) (env : N) p, closures_safe p ->
   exists t1, nth_error (snd (run cell_init env g_init [spawn p] (repeat 0 (length p)))) 0 = Some t1 /\ finished t1 = true.
 Proof. exact alone_finishes. Qed.
 Print Assumptions c11_alone_finishes.
 
 (* no step can panic on, or poison, the log lock *)
 Theorem c11_compile_never_poisons : forall (cell_init : cell -> N) (env : N) g progs sched,
-  GInv cell_init g ->
+  GInv cell_init g -> safe_progs progs ->
   g_poisoned (fst (run cell_init env g (map spawn progs) sched)) = false /\
   forall i t, nth_error (snd (run cell_init env g (map spawn progs) sched)) i = Some t -> t_panicked t = false.
-Proof. intros ci env g progs sched HG. split; [apply never_poisons; exact HG | apply never_panics; exact HG]. Qed.
+Proof. intros ci env g progs sched HG Hs. split; [apply never_poisons; assumption | apply never_panics; assumption]. Qed.
 Print Assumptions c11_compile_never_poisons.
 
 (* after any history (threads of any kind; complete, failed or cut short by a panic of the compiler proper;
    sequential or concurrent) a compilation reads the same constants as in a fresh process *)
 Theorem c11_history_independent : forall (cell_init : cell -> N) (env : N) hist hsched p sched t,
+  safe_progs hist -> closures_safe p ->
   let g := fst (run cell_init env g_init (map spawn hist) hsched) in
   nth_error (snd (run cell_init env g [spawn p] sched)) 0 = Some t -> finished t = true ->
   t_reads t = expected_reads cell_init env p.
@@ -65,6 +70,7 @@ Print Assumptions c11_history_independent.
 
 (* histories of batches of threads with debug-API calls between the batches (F10h, fixed by 9396557) *)
 Theorem c11_history_with_log_api_independent : forall (cell_init : cell -> N) (env : N) hist p sched t,
+  Forall hitem_safe hist -> closures_safe p ->
   let g := fold_left (hstep cell_init env) hist g_init in
   nth_error (snd (run cell_init env g [spawn p] sched)) 0 = Some t -> finished t = true ->
   t_reads t = expected_reads cell_init env p /\ t_panicked t = false.
@@ -75,6 +81,7 @@ Print Assumptions c11_history_with_log_api_independent.
    (`c11_concurrent_log_restart_refuted`), now at full strength: after any history, with any threads in any
    interleaving, the lock is not poisoned, nobody panics, and every thread that completes has read the constants. *)
 Theorem c11_concurrent_log_api_independent : forall (cell_init : cell -> N) (env : N) hist progs sched,
+  Forall hitem_safe hist -> safe_progs progs ->
   let g := fold_left (hstep cell_init env) hist g_init in
   g_poisoned (fst (run cell_init env g (map spawn progs) sched)) = false /\
   forall i p t, nth_error progs i = Some p -> nth_error (snd (run cell_init env g (map spawn progs) sched)) i = Some t ->
@@ -85,15 +92,43 @@ Print Assumptions c11_concurrent_log_api_independent.
 (* Generated names (`table_N`, `_expr_N`; NameGenerator / IdGenerator of utils/id_gen.rs): the generators are owned by the
    call (AnchorContext, Lowerer, Resolver) -- the inventory has no static, atomic or thread_local row --, so the k-th name a
    call generates is k: after ANY history, among ANY other threads (compiling or using the debug API), under ANY schedule.
-   Tie: stream generated-names compares the `verif:namegen` / `verif:pq-names` hook lines of every call with the lines the
-   same request produces alone in a fresh process. *)
+   Tie: stream generated-names compares the hook lines of every call (attributed exactly by harness/src/bin/c11names.rs) with
+   the lines the same request produces alone in a fresh process. *)
 Theorem c11_generated_names_per_call : forall (cell_init : cell -> N) (env : N) hist progs sched i p t,
+  Forall hitem_safe hist -> safe_progs progs ->
   let g := fold_left (hstep cell_init env) hist g_init in
   forallb reads_nothing_else p = true ->
   nth_error progs i = Some p -> nth_error (snd (run cell_init env g (map spawn progs) sched)) i = Some t -> finished t = true ->
   t_reads t = map N.of_nat (seq 0 (length (filter is_gen p))).
 Proof. exact generated_names_per_call. Qed.
 Print Assumptions c11_generated_names_per_call.
+
+(* ---- the assumption dropped: an entry closure that panics ----
+   Full statement (FALSE): forall progs sched, [no thread panics and the lock is not poisoned], without `safe_progs`.
+   With a debug log active, one panicking closure unwinds through the write guard: CURRENT_LOG is poisoned, and since
+   log_start only takes the guard out of the poisoned lock (into_inner) the state is NOT restored -- every later log call
+   of every later compilation panics.  Thread 0 starts the log (and restarts it afterwards), thread 1 is the call whose
+   closure panics, thread 2 an innocent compilation. *)
+Theorem c11_panicking_entry_closure_poisons_for_good : forall (cell_init : cell -> N) (env : N),
+  exists progs sched,
+    let r := run cell_init env g_init (map spawn progs) sched in
+    g_poisoned (fst r) = true
+    /\ option_map t_panicked (nth_error (snd r) 1) = Some true
+    /\ option_map t_panicked (nth_error (snd r) 2) = Some true
+    /\ forallb compile_step (nth 2 progs []) = true /\ forallb closure_safe (nth 2 progs []) = true.
+Proof. exact panicking_closure_poisons_for_good. Qed.
+Print Assumptions c11_panicking_entry_closure_poisons_for_good.
+
+(* the partial statement: while no log is active (every use of the library without debug::log_start) or while it is
+   suppressed, the closure is not even called *)
+Theorem c11_no_log_no_closure_call : forall (cell_init : cell -> N) (env : N) g held,
+  g_poisoned g = false ->
+  (g_log g = None \/ exists es n, g_log g = Some (es, S n)) ->
+  gstep cell_init env g held SLogEntryPanics = (g, ONone, held).
+Proof.
+  intros ci env g held Hp [Hl|[es [n Hl]]]; [apply no_log_no_closure_call | eapply suppressed_no_closure_call]; eassumption.
+Qed.
+Print Assumptions c11_no_log_no_closure_call.
 
 (* two calls generating names concurrently with a third thread restarting the log: each reads 0, 1 (resp. 0, 1, 2) *)
 Example c11_ex_names_two_threads :
